@@ -193,13 +193,16 @@ func loadSearches(prop string, limited bool) func(p *run.Part, tier string) []*s
 		if tier == "thorough" {
 			depth = 5
 		}
+		if !limited {
+			depth += 2 // rebuilds are cheap: the unbounded check follows the BFS as deep as C02 does (two seeded index regressions need six operations)
+		}
 		dl := Budget(tier)
 		seen := &sync.Map{}
 		mk := func(cfg *seqx.Config, prefix string, d int) *seqx.Search {
 			return &seqx.Search{Part: p, Check: "load", Cfg: cfg, Alphabet: Alphabet(3, false), Depth: d, Prefix: Prefixes[prefix], PrefixID: prefix,
 				Deadline: dl, OnState: loadProbe(p, prop, cfg, seen, limited, []int{1, 3})}
 		}
-		ss := []*seqx.Search{mk(CfgDef3, "", depth), mk(CfgHash3, "", depth-1)}
+		ss := []*seqx.Search{mk(CfgDef3, "", depth), mk(CfgHash3, "", 4)}
 		if !limited {
 			ss = append(ss, mk(CfgDef3, "+fork12", 1), mk(CfgDef3, "+chain20", 1))
 		}
